@@ -1,6 +1,7 @@
 (* C12 — Remote delivery integrity: exactly once, to the addressee, unchanged.
    Property theorems only; model in Proto/Model.v, proofs in Proto/Proofs.v. *)
 From Ergo Require Import Common.Base Proto.Model Proto.Proofs Proto.Redial Proto.RedialProofs.
+From Ergo Require Edf.Model Wire.EndToEnd.
 Local Open Scope Z_scope.
 
 (* every field of every message kind (addressee, sender, priority, reference, important flag,
@@ -142,3 +143,30 @@ Example C12_example :
 Proof.
   split; [exact example_msg_wf|]. split; [apply example_frame|]. split; [apply example_frame|]. exact example_reassembly.
 Qed.
+
+(* ---- the payload is not opaque any more: C11's codec composed with the frame / stream layers -------
+   value --edf.Encode--> payload --frame--> (compression) --> link bytes --ANY segmentation--> read()
+   --> decompress / parse --> edf.Decode --> value.  For every list of application-level sends the
+   receiver is handed exactly the accepted ones, in order, each with its header fields unchanged and
+   its value equal to the canonical form of the value sent, the payload consumed entirely.  The value
+   hypotheses are C11's (supported fragment, registered Marshalers invert), the frame hypotheses
+   C12's; the compressor is an abstract round-tripping codec. *)
+Theorem C12_end_to_end : forall (compress : Z -> bytes -> bytes) (decompress : Z -> bytes -> option bytes),
+  (forall t x, valid_ctype t = true -> decompress t (compress t x) = Some x) ->
+  forall o peer_max (l : list Wire.EndToEnd.item) chunks,
+    Edf.Model.wf_opts o -> Edf.Model.marsh_inv o -> Forall (Wire.EndToEnd.item_ok compress o) l ->
+    concat chunks = concat (sent_bytes compress peer_max (Wire.EndToEnd.framed_all o l)) ->
+    exists frames,
+      cut_all peer_max (Open []) chunks = (frames, Open []) /\
+      map (Wire.EndToEnd.deliver decompress (Edf.Model.dual o)) frames =
+        map (Wire.EndToEnd.expected o) (filter (Wire.EndToEnd.went_out compress o peer_max) l) /\
+      Forall (fun d => d <> None) (map (Wire.EndToEnd.expected o) (filter (Wire.EndToEnd.went_out compress o peer_max) l)).
+Proof. exact Wire.EndToEnd.end_to_end. Qed.
+Print Assumptions C12_end_to_end.
+
+Example C12_end_to_end_example :
+  Edf.Model.wf_opts Edf.Proofs.o_plain /\ Edf.Model.marsh_inv Edf.Proofs.o_plain /\
+  Wire.EndToEnd.item_ok Wire.EndToEnd.id_compress Edf.Proofs.o_plain Wire.EndToEnd.ex_item /\
+  Wire.EndToEnd.expected Edf.Proofs.o_plain Wire.EndToEnd.ex_item =
+    Some (set_payload [141; 0; 2; 104; 105] Wire.EndToEnd.ex_hdr, Edf.Model.TPrim Edf.Model.PString, Edf.Model.VBytes [104; 105]%N).
+Proof. exact Wire.EndToEnd.end_to_end_example. Qed.
